@@ -73,20 +73,24 @@ def histories(arity, tier):
         h = [["Z", "X", "Y"], [("F", 1), "Z", "X", "Y"], [("F", 4), "Z", "X", "Y"], ["Z", "X", "Y", ("F", 1), "drop"], [("F", 3), "Z", "X", "Y", ("F", 2), "drop", "drop"]]
     if tier != "thorough":
         h = h[:8] if arity < 3 else h[:3]
-    # operands that have a live copy lower on the stack (made by dup / over): the word must leave the copy as it was
+    # operands that have a live copy lower on the stack (made by dup / over): the word must leave the copy as it was;
+    # operands that carry a non-zero position (third element of a sequence): every operation numbers its own results afresh
     if arity == 1:
-        h += [["Y", "dup"], [("F", 2), "Y", "dup"]]
+        h += [["Y", "dup"], [("F", 2), "Y", "dup"], [("P", "Y")], [("F", 1), ("P", "Y")]]
     elif arity == 2:
-        h += [["X", "dup", "Y"], ["Y", "X", "over"], ["X", "Y", "over", "over"], [("F", 1), "X", "dup", "Y", "over", "swap"]]
+        h += [["X", "dup", "Y"], ["Y", "X", "over"], ["X", "Y", "over", "over"], [("F", 1), "X", "dup", "Y", "over", "swap"],
+              [("P", "X"), "Y"], ["X", ("P", "Y")], [("P", "X"), ("P", "Y")]]
     else:
-        h += [["Z", "X", "Y", "over", "over"]]
+        h += [["Z", "X", "Y", "over", "over"], [("P", "Z"), ("P", "X"), ("P", "Y")]]
     return h
 
 
 def build(template, ops, fk, word):
     parts = []
     for x in template:
-        if isinstance(x, tuple):
+        if isinstance(x, tuple) and x[0] == "P":
+            parts += [("cap", [], ("alt", [I(7), I(7), ops[x[1]]])), W("elem"), W("?2")]
+        elif isinstance(x, tuple):
             parts += fillers(x[1], fk)
         elif x in ("X", "Y", "Z"):
             parts.append(ops[x])
@@ -102,13 +106,13 @@ def cases(tier):
     for w in UNARY_WORDS:
         for (ny, y) in p:
             for hi, h in enumerate(histories(1, tier)):
-                for fk in (fks if any(isinstance(x, tuple) for x in h) else ["c"]):
+                for fk in (fks if any(isinstance(x, tuple) and x[0] == "F" for x in h) else ["c"]):
                     yield ("%s|%s|h%d%s" % (w, ny, hi, fk), (w, (ny,), hi), build(h, {"Y": y}, fk, w))
     for w in BINARY_WORDS:
         for (nx, x), (ny, y) in itertools.product(p, repeat=2):
             hs = histories(2, tier)
             for hi, h in enumerate(hs):
-                for fk in (fks if any(isinstance(t, tuple) for t in h) else ["c"]):
+                for fk in (fks if any(isinstance(t, tuple) and t[0] == "F" for t in h) else ["c"]):
                     yield ("%s|%s,%s|h%d%s" % (w, nx, ny, hi, fk), (w, (nx, ny), hi), build(h, {"X": x, "Y": y}, fk, w))
     small = p[:3] + p[10:12] + p[20:22]
     for w in TERNARY_WORDS:
